@@ -106,7 +106,7 @@ func QuickRuns(id string) (int, int) {
 	case "C18":
 		return 100, 120
 	case "C16":
-		return 40, 150
+		return 30, 150
 	case "C17":
 		return 150, 150
 	}
